@@ -226,6 +226,8 @@ class Run:
                       'touch_tus': 0, 'entities_touched': 0, 'by_stream': {}}
         self.feat = {}
         self.error_classes = {}
+        self.failure_cases = {}
+        self.unexplained = []
         self.model = None
         self.exe = None
 
@@ -337,9 +339,13 @@ class Run:
                    'case': case}
             if not case['explained']:
                 rep['schema'], rep['schema_xml'], rep['minimised'] = self.minimise(c, what, cxx, std, ecls)
-            new = chk.report_failure(rep)
-            if not new:
-                pass
+            hk = '%s|%s|%s|%s' % (ecls, mcls or '-', 'explained' if case['explained'] else 'UNEXPLAINED',
+                                  'predicted' if case['predicted'] else 'UNPREDICTED')
+            self.failure_cases[hk] = self.failure_cases.get(hk, 0) + 1
+            if not case['explained'] or not case['predicted']:
+                self.unexplained.append({'stream': c.stream, 'config': '%s %s' % (cxx, std), 'job': what,
+                                         'first_error': msg[:200], 'model': [p for p in c.problems if p['on'] != 'none'][:4]})
+            chk.report_failure(rep)
             if len(chk.cov['samples']) < 6:
                 chk.sample({'stream': c.stream, 'config': '%s %s' % (cxx, std), 'job': what, 'first_error': msg[:160],
                             'case': case})
@@ -477,6 +483,8 @@ def run(chk):
                        'compared with "compiles" (property) and with the model\'s prediction; distinct = accepted schemas')
     chk.cov['run_stats'] = run.stats
     chk.cov['compiler_error_classes'] = run.error_classes
+    chk.cov['failure_cases'] = dict(sorted(run.failure_cases.items()))
+    chk.cov['unexplained_failures'] = run.unexplained[:20]
     chk.cov['input_feature_histogram'] = dict(sorted(run.feat.items()))
     chk.cov['configurations'] = ['%s -std=%s' % c for c in configs]
     if chk.failed_obligations and not chk.violations:
